@@ -323,9 +323,18 @@ def check_property(prop, tier='quick', seed=0):
             if refuted:
                 break
         if refuted is None:
-            row['status'] = 'NOT REFUTED'
-            rep.crashes.append('canary %s was not refuted: the engine or the '
-                               'contract is too weak' % c['name'])
+            limits = [e for cj, r in cresults if cj == ci
+                      for e in r['errors'] if e[0] != 'crash']
+            if limits:
+                # the proofs of this canary hit an engine limit on this
+                # source (unsupported construct, time-out): nothing is known
+                row['status'] = 'undecided (%s)' % limits[0][1][:120]
+                rep.undecided.append('canary %s: %s' % (c['name'],
+                                                        limits[0][1][:200]))
+            else:
+                row['status'] = 'NOT REFUTED'
+                rep.crashes.append('canary %s was not refuted: the engine or '
+                                   'the contract is too weak' % c['name'])
         else:
             pn, ob = refuted
             row['status'] = 'refuted'
